@@ -698,7 +698,8 @@ fn e2e_burst(r: &mut Rng, res: &mut CaseResult) {
     let nmsg = if small { r.usize(100, 1500) } else { r.usize(5, 40) };
     // the negotiated frame_max varies (4096 is the smallest legal value), and the bigger
     // bodies come in frames that are exactly as large as it allows
-    let fm: usize = *r.pick(&[4096usize, 4096, 16384, 131072, 131072]);
+    // (1 MiB: the broker offers more than RabbitMQ's default and the client takes it)
+    let fm: usize = *r.pick(&[4096usize, 4096, 16384, 131072, 131072, 1 << 20]);
     let full = fm - 8;
     let sizes: Vec<usize> = (0..nmsg).map(|_| if small { *r.pick(&[0usize, 1, 10, 100]) } else { *r.pick(&[0usize, 10, 1000, 4000, 4000, 30000, full, full - 1, 2 * full + 1]) }).collect();
     let total: usize = sizes.iter().sum();
@@ -707,7 +708,11 @@ fn e2e_burst(r: &mut Rng, res: &mut CaseResult) {
         if matches!(seg, Segmenter::Fixed(n) if n < 8) && total > 200_000 {
             continue;
         }
-        let (conn, h) = session::open_with(Reflex::default(), session::default_opts().frame_max(fm as u32), amiquip::ConnectionTuning::default(), |_| {});
+        let mut reflex = Reflex::default();
+        if fm > 131072 {
+            reflex.tune = (2047, fm as u32, 0);
+        }
+        let (conn, h) = session::open_with(reflex, session::default_opts().frame_max(if fm > 131072 { 0 } else { fm as u32 }), amiquip::ConnectionTuning::default(), |_| {});
         let mut conn = match conn {
             Ok(c) => c,
             Err(e) => {
